@@ -79,8 +79,8 @@ def h_blur(ctx, d, ngrids, rank, F=1, N=2, free=3, moving=False, ppp=None):
         poss.append(prow)
         snaps.append(C.snapshot(ctx, ru, f, [1] * N, C.farr(ctx, prow), rows, lo=lo))
     S = ru.Snapshots(nsnapshots=F, snapshots=snaps)
-    shape = {0: (F, N), 1: (F, N, d)}[rank]
-    cond = ctx.array("A", shape)
+    shape = {0: (F, N), 1: (F, N, d), 2: (F, N, d, d)}[rank]
+    cond = ctx.array("A", shape)        # rank 2: a general (non-symmetric) tensor per particle
     G = int(np.prod(ngrids))
     def axes_of(f):
         lo = lo_f[f]
@@ -105,7 +105,7 @@ def h_blur(ctx, d, ngrids, rank, F=1, N=2, free=3, moving=False, ppp=None):
             pt = [axes[a][idx[a]] for a in range(d)]
             for a in range(d):
                 ctx.oblige(f"grid point[{f},{flat},{a}]", O.eq(gpos[f, flat, a], pt[a]))
-            comps = [()] if rank == 0 else [(c,) for c in range(d)]
+            comps = [()] if rank == 0 else ([(c,) for c in range(d)] if rank == 1 else [(c, e) for c in range(d) for e in range(d)])
             for cc in comps:
                 tot = 0
                 for i in range(N):
@@ -338,6 +338,7 @@ def cfg_blur(tier, seed):
     for g, n in (([2, 3], 1), ([3, 2], 1), ([1, 3], 2), ([2, 2], 2), ([3, 1], 1)):
         out.append(dict(d=2, ngrids=g, rank=0, N=n))
     out.append(dict(d=2, ngrids=[2, 3], rank=1, N=1))
+    out.append(dict(d=2, ngrids=[2, 1], rank=2, N=2, free=1))          # tensor property, not symmetric
     out.append(dict(d=3, ngrids=[2, 2, 3], rank=0, N=1))
     out.append(dict(d=3, ngrids=[1, 3, 2], rank=0, N=1))
     out.append(dict(d=2, ngrids=[2, 2], rank=0, F=2, N=1, free=1, moving=True))      # second frame with a shifted box origin
